@@ -41,7 +41,7 @@ CLAIMED['C01'] = dict(
          'source and checked by decide; three known findings proved as counterexamples (FIFO count, read-file-record response layout, '
          'multi-word diagnostic request); enc_readFileRecord_req_conforms / enc_writeFileRecord_req_conforms / enc_writeFileRecord_resp_conforms / '
          'dec_readFileRecord_req_conforms / dec_writeFileRecord_req_conforms / dec_writeFileRecord_resp_conforms (file-record PDUs, every list '
-         'of sub-requests, by induction). Device-identification PDUs are covered by the correspondence harness (and C20). Decoders are isolated: vendor classes registered on one decoder must not change what any other decoder of the process makes of a standard PDU. Objects are also edited in place after a first encode (lists overwritten / bits flipped) and must encode the PDU of their current field values. The event bytes of pymodbus/events.py (the content an application files in the FC 12 event log) are modelled too (Model/Events.lean): event_send_conforms / event_send_roundtrip / event_recv_decode_conforms / event_fixed_roundtrip / event_send_decode_encode over all flag sets and all 256 bytes, and event_recv_encode_as_coded / event_recv_encode_never_conforms (RemoteReceiveEvent.encode packs seven bits: every flag one bit too low, bit 7 clear; outside the property\'s message classes, so recorded in DESIGN, not a finding); compared with the real classes exhaustively each run; the event log of ModbusControlBlock (addEvent/getEvents) is Events.runLog: eventlog_bounded (at most 64 entries after any history, by induction), eventlog_bytes_bounded, eventlog_newest_first, compared on histories of up to 200 calls.',
+         'of sub-requests, by induction). Device-identification PDUs are covered by the correspondence harness (and C20). Decoders are isolated: vendor classes registered on one decoder must not change what any other decoder of the process makes of a standard PDU. Objects are also edited in place after a first encode (lists overwritten / bits flipped) and must encode the PDU of their current field values. The event bytes of pymodbus/events.py (the content an application files in the FC 12 event log) are modelled too (Model/Events.lean): event_send_conforms / event_send_roundtrip / event_recv_decode_conforms / event_fixed_roundtrip / event_send_decode_encode over all flag sets and all 256 bytes, and event_recv_encode_as_coded / event_recv_encode_never_conforms (RemoteReceiveEvent.encode packs seven bits: every flag one bit too low, bit 7 clear; outside the property\'s message classes, so recorded in DESIGN, not a finding); compared with the real classes exhaustively each run; the event log of ModbusControlBlock (addEvent/getEvents) is Events.runLog: eventlog_bounded (at most 64 entries after any history, by induction), eventlog_bytes_bounded, eventlog_newest_first, compared on histories of up to 200 calls. generated_event_table: the event bytes and the log cap observed on the imported classes on every run (Generated.eventEncodeTable / eventLogCap) equal the model\'s.',
     design='6/C01', technique='Lean 4 proof of codec conformance to a spec transcription + differential correspondence',
     note='Spec/PduSpec.lean is a transcription of Modbus Application Protocol v1.1b3 section 6-7 (trusted).')
 CLAIMED['C02'] = dict(
